@@ -329,13 +329,13 @@ func tail(s string, n int) string {
 }
 
 type options struct {
-	prop    string
-	tier    string
-	seed    uint64
-	workers int
-	wall    time.Duration
-	replay  string
-	sources string
+	prop       string
+	tier       string
+	seed       uint64
+	workers    int
+	wall       time.Duration
+	replay     string
+	sources    string
 	minBudget  time.Duration // minimisation budget per violation class (0 = by tier)
 	maxClasses int           // violation classes minimised and published per run
 }
